@@ -187,7 +187,10 @@ func (s *SamplerFactory) createSampler(c any, keyPrefix string) Sampler {
 	s.Logger.Debug().WithField("dataset", keyPrefix).Logf("created implementation for sampler type %T", c)
 	// Update peer counts after creating a sampler
 	s.updatePeerCounts()
-	s.Metrics.Gauge("unique_dynsampler_count", float64(len(s.sharedDynsamplers)))
+	s.mutex.Lock()
+	count := len(s.sharedDynsamplers)
+	s.mutex.Unlock()
+	s.Metrics.Gauge("unique_dynsampler_count", float64(count))
 
 	return sampler
 }
